@@ -8,7 +8,9 @@ from .module import SourceModule, ImportedModule
 
 try:
     import importlib.machinery
-    SUFFIXES = importlib.machinery.all_suffixes()
+    # the order in which importlib's FileFinder tries them: an extension wins over a source file
+    SUFFIXES = (importlib.machinery.EXTENSION_SUFFIXES + importlib.machinery.SOURCE_SUFFIXES +
+                importlib.machinery.BYTECODE_SUFFIXES)
 except:
     import imp  # type: ignore[import-not-found]
     SUFFIXES = [s for s, _, _ in imp.get_suffixes()]
